@@ -64,10 +64,20 @@ class Frame:
         f.entered = self.entered
         return f
 
+class Thread:
+    __slots__ = ("tid", "frames", "done", "granted", "name", "started")
+    def __init__(self, tid, name=""):
+        self.tid = tid; self.frames = []; self.done = False; self.granted = False; self.name = name; self.started = False
+    def clone(self):
+        t = Thread(self.tid, self.name); t.frames = [f.clone() for f in self.frames]; t.done = self.done; t.granted = self.granted
+        t.started = self.started
+        return t
+
 class State:
     def __init__(self):
         self.mem = {}        # obj id -> Obj (copy on write by clone())
-        self.frames = []
+        self.threads = [Thread(0, "main")]
+        self.cur = 0
         self.pc = []         # list of Bool terms (for reporting / re-check)
         self.oblig = []      # pending (term, desc)
         self.next_obj = 1
@@ -75,10 +85,14 @@ class State:
         self.trace = []
         self.concr = {}      # term id -> concrete int (concretised symbolic offsets)
         self.heavy = []      # assumptions used only when discharging obligations (not for branch feasibility)
+    @property
+    def frames(self): return self.threads[self.cur].frames
+    @frames.setter
+    def frames(self, v): self.threads[self.cur].frames = v
     def clone(self):
         s = State.__new__(State)
         s.mem = {k: v.clone() for k, v in self.mem.items()}
-        s.frames = [f.clone() for f in self.frames]
+        s.threads = [t.clone() for t in self.threads]; s.cur = self.cur
         s.pc = list(self.pc); s.oblig = list(self.oblig); s.next_obj = self.next_obj
         s.user = dict(self.user); s.trace = list(self.trace); s.concr = dict(self.concr)
         s.heavy = list(self.heavy)
@@ -129,6 +143,9 @@ class Executor:
         self.inputs = {}        # var name -> T (declared harness inputs, for models)
         self.strict_uninit = False
         self.merge_fns = set()
+        self.detect_recurrence = False
+        self.blocked = None        # callable(st, thread) -> bool : is the thread's pending sync operation disabled?
+        self.on_all_done = None    # callable(ex, st) when every thread has finished
         self.bv_first = False      # small finite domains: decide obligations by bit-blasting (width from interval analysis)
         self.bv_timeout = 120
         self.premise_points = {}   # (fn name, result name) -> True: the nsw obligation there is *assumed* (stated premise)
@@ -164,6 +181,7 @@ class Executor:
         if key in st.mem: return Ptr(key, 0)
         g = self.mod.globals.get(name)
         if g is None:
+            name = self.mod.aliases.get(name, name)
             if name in self.mod.funcs or name in self.mod.decls:
                 return Ptr(("fn", name), 0)
             raise Unsupported("unknown global @%s" % name)
@@ -172,8 +190,8 @@ class Executor:
         st.mem[key] = o
         if g.init is not None:
             self._init_const(st, o, 0, g.ty, g.init)
-        else:
-            raise Unsupported("external global @%s without initializer" % name)
+        # an external global (defined in another translation unit) is an opaque object: its address can be taken
+        # and stored; reading its contents yields 'uninitialised' values
         return Ptr(key, 0)
     def _init_const(self, st, o, off, ty, op):
         mod = self.mod
@@ -275,6 +293,8 @@ class Executor:
         if off < 0 or off + n > o.size:
             self.prove(st, False, "out-of-bounds load at %s+%d size %d (obj size %d)" % (o.name, off, n, o.size))
             raise PathEnd()
+        am = st.user.get("access_monitor")
+        if am is not None: am(self, st, o, off, n, False)
         c = o.cells.get(off)
         if c is not None and c[0] == n:
             v = c[1]
@@ -301,6 +321,7 @@ class Executor:
         self.prove(st, smt.or_(*[smt.eq(off, k) for k in cands]), "table index aligned for %s" % o.name)
         return v
     def _as_type(self, st, v, rty, what):
+        if rty.k == "fp": return v if isinstance(v, Undef) else Undef()     # opaque
         if isinstance(v, Undef):
             if self.strict_uninit:
                 self.prove(st, False, "read of uninitialised memory: " + what)
@@ -403,6 +424,10 @@ class Executor:
             raise PathEnd()
         if st.user.get("store_monitor") is not None:
             st.user["store_monitor"](self, st, o, off, n)
+        am = st.user.get("access_monitor")
+        if am is not None: am(self, st, o, off, n, True)
+        if self.detect_recurrence and st.frames and not any(p.obj == o.id for p in st.frames[-1].allocas.values()):
+            st.user["nonlocal_stores"] = st.user.get("nonlocal_stores", 0) + 1
         self._clear(st, o, off, n)
         o.cells[off] = (n, v)
     def _clear(self, st, o, off, n):
@@ -554,6 +579,7 @@ class Executor:
             if rty.k == "struct": return tuple(self.eval_const(st, type(op)("zero", f)) for f in rty.fields)
             raise Unsupported("zeroinitializer value of %r" % rty)
         if k == "global": return self.global_ptr(st, op.v)
+        if k == "fp": return Undef()      # floating-point data is opaque (no float arithmetic is supported)
         if k == "cexpr":
             flags, pred, args = op.args
             o = op.v
@@ -612,6 +638,7 @@ class Executor:
     # ------------------------------------------------------------- calls
     def call(self, st, name, args, k=None):
         """push a frame for IR function `name` (or run its contract) ; k(st, retval) runs at return"""
+        name = self.mod.aliases.get(name, name)
         c = self.contracts.get(name)
         if c is not None:
             rv = c(self, st, args)
@@ -684,6 +711,35 @@ class Executor:
             return None
         if name.startswith("llvm.is.constant"):
             return False
+        if name in ("strncmp", "memcmp", "bcmp"):
+            n = self.concretize(st, args[2], name + " length")
+            from .irparse import I8 as _I8
+            res = 0
+            for i in reversed(range(n)):
+                a = smt.to_u(self.load(st, Ptr(args[0].obj, smt.add(args[0].off, i)), _I8), 8)
+                b = smt.to_u(self.load(st, Ptr(args[1].obj, smt.add(args[1].off, i)), _I8), 8)
+                stop = smt.eq(a, 0) if name == "strncmp" else False
+                res = smt.ite(smt.lt(a, b), -1, smt.ite(smt.lt(b, a), 1, smt.ite(stop, 0, res) if stop is not False else res))
+            return res
+        if name == "strcmp":
+            # the second operand must be a concrete NUL-terminated string (a literal); the first may be symbolic
+            from .irparse import I8 as _I8
+            bs = []
+            for i in range(256):
+                b = self.load(st, Ptr(args[1].obj, smt.add(args[1].off, i)), _I8)
+                if is_sym(b): raise Unsupported("strcmp with a symbolic second operand")
+                bs.append(b & 255)
+                if b == 0: break
+            res = None
+            for i in reversed(range(len(bs))):
+                a = smt.to_u(self.load(st, Ptr(args[0].obj, smt.add(args[0].off, i)), _I8), 8)
+                if bs[i] == 0:
+                    res = smt.ite(smt.eq(a, 0), 0, 1)
+                else:
+                    res = smt.ite(smt.lt(a, bs[i]), -1, smt.ite(smt.lt(bs[i], a), 1, res))
+            return res
+        if name == "free":
+            return None
         if name == "__assert_fail":
             self.prove(st, False, "assert() failure reachable in %s" % (st.frames[-1].fn.name if st.frames else "?"))
             raise PathEnd()
@@ -713,6 +769,8 @@ class Executor:
             except PathEnd:
                 pass
             self.res.paths += 1
+            if DEBUG and self.res.paths % 200 == 0:
+                sys.stderr.write("[progress] paths=%d obligations=%d queries=%d solver=%.0fs\n" % (self.res.paths, self.res.obligations, self.res.queries, self.res.solver_time))
         except _Fork as f:
             self._do_fork(st, f.alts)
         except Unsupported as e:
@@ -766,8 +824,58 @@ class Executor:
                     fr.ip += 1
                 elif r == "jump" or r == "call" or r == "ret":
                     break
+            if not st.frames and len(st.threads) > 1:
+                st.threads[st.cur].done = True
+                self.schedule(st, "thread %d finished" % st.cur)
         # all frames returned
+        if len(st.threads) > 1 and self.on_all_done is not None and all(t.done or not t.frames for t in st.threads):
+            self.on_all_done(self, st)
         raise PathEnd()
+
+    # ------------------------------------------------------------- threads (sequentialisation: schedules are forked choices)
+    def spawn(self, st, name, args, k=None, label=""):
+        t = Thread(len(st.threads), label or name)
+        st.threads.append(t)
+        save = st.cur; st.cur = t.tid
+        try:
+            r = self.call(st, name, args, k)
+        finally:
+            st.cur = save
+        return t.tid
+    def runnable(self, st):
+        out = []
+        for t in st.threads:
+            if t.done or not t.frames: continue
+            b = self.blocked(st, t) if self.blocked else False
+            if not b: out.append(t.tid)
+        return out
+    def schedule(self, st, why=""):
+        """context switch point: fork over every runnable thread (the chosen one is granted its pending sync operation)"""
+        rs = self.runnable(st)
+        if not rs:
+            if any((not t.done) and t.frames for t in st.threads):
+                self.prove(st, False, "deadlock: threads remain but none can run (%s)" % why)
+                raise PathEnd()
+            return
+        self.res.schedule_points = getattr(self.res, "schedule_points", 0) + 1
+        def pick(tid):
+            def f(s):
+                s.cur = tid
+                # a step = the thread's pending synchronisation operation plus everything up to its next one;
+                # a thread that has not started yet has "start" as its pending operation
+                s.threads[tid].granted = s.threads[tid].started
+                s.threads[tid].started = True
+                s.trace.append("T%d" % tid)
+            return f
+        raise _Fork([(True, pick(t)) for t in rs])
+    def sync_point(self, st, what):
+        """called at the start of a synchronisation contract: the first time the scheduler is consulted; when the thread has
+        been granted the step the contract proceeds"""
+        t = st.threads[st.cur]
+        if len(st.threads) <= 1: return
+        if t.granted:
+            t.granted = False; return
+        self.schedule(st, what)
 
     def _enter_block(self, st, fr):
         key = (fr.fn.name, fr.block)
@@ -803,6 +911,21 @@ class Executor:
             return
         c = fr.visits.get(fr.block, 0) + 1
         fr.visits[fr.block] = c
+        if c >= 3 and self.detect_recurrence:
+            # non-termination by state recurrence: same block, same contents of every local variable of the frame,
+            # and no store outside the frame since the previous visit
+            snap = []
+            for nm, p in fr.allocas.items():
+                o = st.mem.get(p.obj)
+                if o is None: continue
+                for off, (n, v) in sorted(o.cells.items()):
+                    snap.append((nm, off, n, v.id if is_sym(v) else (("p", v.obj, v.off if not is_sym(v.off) else v.off.id) if isinstance(v, Ptr) else ("c", repr(v)))))
+            key = (fr.block, tuple(snap), st.user.get("nonlocal_stores", 0))
+            seen = fr.cutinfo.setdefault("#rec", set())
+            if key in seen:
+                self.prove(st, False, "loop at %s:%s does not terminate (state recurrence after %d visits)" % (fr.fn.name[:50], fr.block, c))
+                raise PathEnd()
+            seen = set(seen); seen.add(key); fr.cutinfo["#rec"] = seen
         if c > self.max_unwind:
             self.res.unwind_exceeded.append("%s:%s" % key)
             raise PathEnd()
@@ -1065,6 +1188,12 @@ class Executor:
                     return smt.sub(-1, a)
                 if op == "or" and ub == 0: return a
                 if op == "xor" and ub == 0: return a
+            if op == "or" and is_sym(a) and is_sym(b):
+                # byte composition (x << k) | y with y < 2^k: disjoint bits, so the result is the sum
+                for x, y in ((a, b), (b, a)):
+                    lo, hi = smt.bounds(y)
+                    if lo is not None and lo >= 0 and hi is not None and hi < (1 << _tzbits(x)):
+                        return smt.wrap_s(smt.add(smt.to_u(x, bits), y), bits)
             raise Unsupported("bitwise %s on symbolic operands%s" % (op, where))
         raise Unsupported("arith op %s" % op)
     def _srcline(self, ins):
@@ -1123,6 +1252,20 @@ class Executor:
                 return smt.ne(smt.fmod(a, 2), 0) if is_sym(a) else bool(a & 1)
             return smt.wrap_s(a, db)
         raise Unsupported(op)
+
+def _tzbits(t):
+    """number of low bits of a term's value that are certainly zero"""
+    if not is_sym(t):
+        t = int(t)
+        if t == 0: return 64
+        return (t & -t).bit_length() - 1
+    if t.op == "*" and not is_sym(t.args[1]): return _tzbits(t.args[0]) + _tzbits(t.args[1])
+    if t.op in ("+", "-"): return min(_tzbits(t.args[0]), _tzbits(t.args[1]))
+    if t.op == "mod" and not is_sym(t.args[1]):
+        c = t.args[1]
+        return _tzbits(t.args[0]) if (c & (c - 1)) == 0 else 0
+    if t.op == "ite": return min(_tzbits(t.args[1]), _tzbits(t.args[2]))
+    return 0
 
 def _conj(iv):
     return smt.and_(*iv) if isinstance(iv, tuple) else iv
